@@ -140,7 +140,7 @@ enum Step0 {
 impl Model0 {
     fn range(&self, s: u32, l: u32) -> Option<std::ops::Range<usize>> {
         let (s, l) = (s as usize, l as usize);
-        if s + l <= MEM {
+        if s + l <= self.mem.len() {
             Some(s..s + l)
         } else {
             None
@@ -332,10 +332,14 @@ fn short(o: &Outcome0) -> String {
 
 /// The epilogue dumps the observation windows into logs (scratch, last 16 bytes, results)
 /// and returns the index of a final `accept`.
-fn with_epilogue(script: &Script0) -> Script0 {
+fn with_epilogue(script: &Script0, pages: usize) -> Script0 {
     let mut s = script.clone();
     s.push(Call0 { f: F0::LogEvent, args: vec![Arg::C(SCRATCH as u64), Arg::C(0x100)] });
     s.push(Call0 { f: F0::LogEvent, args: vec![Arg::C(TAIL as u64), Arg::C(16)] });
+    if pages == 2 {
+        s.push(Call0 { f: F0::LogEvent, args: vec![Arg::C(0x10000), Arg::C(16)] });
+        s.push(Call0 { f: F0::LogEvent, args: vec![Arg::C(0x1FFF0), Arg::C(16)] });
+    }
     s.push(Call0 { f: F0::LogEvent, args: vec![Arg::C(RES as u64), Arg::C(8 * script.len() as u64)] });
     s.push(Call0 { f: F0::Accept, args: vec![] });
     s
@@ -397,7 +401,8 @@ fn module_of(full: &Script0, mem: &[u8]) -> Vec<u8> {
     body.push(Instr::LocalGet(1));
     body.push(Instr::Num(0xA7));
     m.funcs.push(Func { ty: entry_ty, locals: vec![VT::I64], body });
-    m.memory = Some((1, Some(1)));
+    let pages = (mem.len() / MEM) as u32;
+    m.memory = Some((pages, Some(pages)));
     for (off, len) in [(KEYS, 0x100u32), (SRC, 0x100), (super::PK, 0x80), (super::CALLARGS, 0x40), (SCRATCH, 0x100), (TAIL, 16)] {
         m.data.push((off, mem[off as usize..(off + len) as usize].to_vec()));
     }
@@ -412,7 +417,7 @@ fn run_real(wasm: &[u8], c: &Ctx0, budget: u64) -> Result<(Outcome0, Option<u64>
     let artifact: concordium_wasm::artifact::Artifact<v0::ProcessedImports, CompiledFunction> = inst.artifact;
     let policy = c.policy.clone();
     let rc: v0::ReceiveContext<&[u8]> = v0::ReceiveContext { metadata: ChainMetadata { slot_time: Timestamp::from_timestamp_millis(c.slot_time) }, invoker: AccountAddress(c.invoker), self_address: ContractAddress::new(c.self_address.0, c.self_address.1), self_balance: Amount::from_micro_ccd(c.self_balance), sender: Address::Contract(ContractAddress::new(5, 6)), owner: AccountAddress(c.owner), sender_policies: &policy[..] };
-    mc_core::set_dirty_limit(MEM);
+    mc_core::set_dirty_limit(2 * MEM);
     let inv = v0::ReceiveInvocation { amount: 0, receive_name: "c.run", parameter: concordium_contracts_common::Parameter::new_unchecked(&c.parameter[..]), energy: InterpreterEnergy::new(budget) };
     let st = initial_state0();
     match v0::invoke_receive(&artifact, rc, inv, &st[..], c.max_param, c.limit) {
@@ -492,9 +497,19 @@ fn expect(full: &Script0, c: &Ctx0, mem0: &[u8]) -> (Vec<Outcome0>, u128) {
 }
 
 fn check_script(report: &Report, script: &Script0, c: &Ctx0, mem0: &[u8], energy_probe: bool) {
+    // (the context is part of the witness only where it differs from the default)
     report.eval(1);
-    let w = || json!({"interface": "v0", "limits": c.limit, "script": script_json(script)});
-    let full = with_epilogue(script);
+    let w = || {
+        let mut j = json!({"interface": "v0", "limits": c.limit, "script": script_json(script)});
+        if c.parameter.len() != 5 {
+            j["parameter_len"] = json!(c.parameter.len());
+        }
+        if mem0.len() != MEM {
+            j["memory_pages"] = json!(mem0.len() / MEM);
+        }
+        j
+    };
+    let full = with_epilogue(script, mem0.len() / MEM);
     let (allowed, model_cost) = expect(&full, c, mem0);
     let wasm = module_of(&full, mem0);
     let (real, remaining) = match mc_core::catch(|| run_real(&wasm, c, BUDGET)) {
@@ -626,6 +641,58 @@ pub fn run_v0(report: &Report, tier: Tier, mem_v1: &[u8]) {
     }
     report.set_extra("v0_context_cases", json!(special.len()));
     special.par_iter().for_each(|(limit, s)| check_script(report, s, &ctx0(*limit), &mem0, true));
+    // contracts with two pages of memory: the bounds are at 128 KiB
+    let mut mem2 = mem0.clone();
+    mem2.resize(2 * MEM, 0);
+    let ptr2 = cs(&[SCRATCH as u64, 0xFFFF, 0x10000, 0x1FFF8, 0x1FFFF, 0x20000, 0xFFFF_FFFF]);
+    let len2 = cs(&[0, 1, 8, 20, 0x4000, 0x10000, 0x10001, 0x1FFFF, 0x20000]);
+    let mut two_page: Vec<Script0> = vec![];
+    for f in ALL0 {
+        let lists: Vec<Vec<Arg>> = match f {
+            F0::SimpleTransfer => vec![ptr2.clone(), cs(&[3])],
+            F0::Send => vec![cs(&[1]), cs(&[2]), cs(&[KEYS as u64 + 0x10, 0x1FFFD, 0x1FFFE, 0x20000]), cs(&[3]), cs(&[7]), ptr2.clone(), cs(&[0, 5, 1024, 1025])],
+            F0::GetParameterSection | F0::GetPolicySection | F0::LoadState | F0::WriteState => vec![ptr2.clone(), len2.clone(), cs(&[0, 1])],
+            F0::LogEvent => vec![ptr2.clone(), cs(&[0, 1, 8, 512, 513])],
+            F0::GetReceiveInvoker | F0::GetReceiveSelfAddress | F0::GetReceiveSender | F0::GetReceiveOwner => vec![ptr2.clone()],
+            _ => continue,
+        };
+        for args in product(&lists) {
+            let mut s = prefix.clone();
+            s.push(Call0 { f, args });
+            two_page.push(s);
+        }
+    }
+    report.set_extra("v0_two_page_memory_cases", json!(two_page.len()));
+    let c1 = ctx0(true);
+    two_page.par_iter().enumerate().for_each(|(i, s)| check_script(report, s, &c1, &mem2, i % 16 == 0));
+    // parameter sizes: empty, one byte, the limits
+    let mut param_cases: Vec<(Ctx0, Script0)> = vec![];
+    for limit in [true, false] {
+        for plen in [0usize, 1, 1024, 65535] {
+            let mut cx = ctx0(limit);
+            if plen > cx.max_param {
+                continue;
+            }
+            cx.parameter = (0..plen).map(|i| (i * 11 + 3) as u8).collect();
+            param_cases.push((cx.clone(), vec![c(F0::GetParameterSize, &[])]));
+            let pl = plen as u64;
+            let mut lens = vec![0, 1, pl.saturating_sub(1), pl, pl + 1, 0xFFFF, 0x10000];
+            lens.sort();
+            lens.dedup();
+            let mut offs = vec![0, 1, pl.saturating_sub(1), pl, pl + 1];
+            offs.sort();
+            offs.dedup();
+            for ptr in [0u64, 1, SCRATCH as u64] {
+                for len in &lens {
+                    for off in &offs {
+                        param_cases.push((cx.clone(), vec![c(F0::GetParameterSection, &[ptr, *len, *off])]));
+                    }
+                }
+            }
+        }
+    }
+    report.set_extra("v0_parameter_size_cases", json!(param_cases.len()));
+    param_cases.par_iter().for_each(|(cx, s)| check_script(report, s, cx, &mem0, true));
     // all pairs (thorough: triples of the state functions) over the reduced alphabet
     let mut atoms: Vec<Call0> = vec![];
     for f in ALL0 {
